@@ -470,6 +470,9 @@ def _run(ctx):
     timed('repeat', wl_repeat, ctx)
     timed('forms', wl_forms, ctx)
     timed('foreign', wl_foreign, ctx)
+    timed('special', wl_special, ctx)
+    timed('scale-units', wl_scale_units, ctx)
+    timed('sizes', wl_sizes, ctx)
     ctx.note('workload_seconds(first shard)', secs)
     _clear_caches()
 
@@ -1267,6 +1270,381 @@ def wl_foreign(ctx):
                 ctx.require('tilt->displacement.fft', abs(px - ex_) <= tol and abs(py - ey_) <= tol, f'C03/Wavefront.focus/fft/{_qclass(Q)}',
                             'Wavefront.focus: a pupil with k waves of tilt does not peak at k*lambda*f/D in the reported coordinates [after foreign traffic]',
                             dict(desc, waves=(kx, ky)), peak_xy=(px, py), expected_xy=(ex_, ey_), reported_dx=float(out.dx))
+    CUR = None
+    _clear_caches()
+
+
+# ------------------------------------------------------------------------------------------ hardening pass 3: classes G / H / I
+RULE = RULE + ('.  Hardening pass 3 -- class H ("the requested grid is exactly an FFT grid"): fixed sampling with output_dx EXACTLY the spacing the '
+               'library reports for a q-times padded FFT (pupil_sample_to_psf_sample / psf_sample_to_pupil_sample / Wavefront.focus(efl, Q=q).dx; the '
+               'library\'s own Q_for_sampling then returns q = 1, 2, 3, 4 exactly) and output_samples equal to the input shape or to q times it, '
+               'combined with every shift pattern (x only, y only, both, none; int and fractional samples; zero component as int 0 / float 0.0), both '
+               'routes, both methods, function and Wavefront form, square (even / odd / prime) and non-square arrays (the spacing natural for one '
+               'axis), random fields (contract) and tilted pupils / displaced spots (peak on the sample at k lambda f / D + shift).  Class G: fields '
+               'of magnitude 1e-12 ... 1e12 through both fixed-sampling routes and Wavefront.focus / unfocus (homogeneity and the contract), and the '
+               'same propagation in other consistent units (metres everywhere, microns everywhere, nm in the focal plane, ...): equal fields, reported '
+               'dx scaled by the unit of the output plane, spacing helpers scaled likewise.  Class I: thin arrays whose long axis has 65 ... 1024 '
+               'samples (prime, awkward, power of two) onto long output axes incl. band-complete grids with Q within 1e-3 of an integer, with and '
+               'without one-axis shifts; Wavefront.focus / unfocus on square prime sizes 65 ... 127')
+ASSUMPTIONS = ASSUMPTIONS + [
+    'exactly-special geometries are produced with the library\'s own expressions ((efl*wvl)/(dx*n); Q_for_sampling) so that floating-point equality is '
+    'hit on purpose; draws for which the library\'s Q is not exactly the integer are excluded and counted',
+    'homogeneity f(s a) = s f(a) is compared at 1e-11 (single precision 1e-3) of max|s f(a)|; unit invariance at the C01 conditioning tolerance of the '
+    'call relative to the bound sum|a| / sqrt(Na Q0 Ma Q1); reported dx and helpers under a change of units at 1e-13 relative',
+]
+REQUIRED = REQUIRED + ['special.fft-grid-with-shift', 'scale.homogeneity', 'scale.unit-invariance', 'size.large-or-prime']
+
+
+def _typed_shift(s, unit):
+    """(sx, sy) in samples -> output units; an int 0 stays an int 0, a float 0.0 a float 0.0 (the library tests components for truth / != 0)."""
+    return tuple((v * unit if v != 0 else v) for v in s)
+
+
+def _shift_cls(s):
+    return '0' if (s[0] == 0 and s[1] == 0) else ('int' if all(float(v).is_integer() for v in s) else 'frac')
+
+
+def _special_shape(rng, scls, hi):
+    if scls == 'sq:e':
+        n = 2 * int(rng.integers(2, hi // 2 + 1))
+        return (n, n)
+    if scls == 'sq:o':
+        n = 2 * int(rng.integers(2, hi // 2 + 1)) + 1
+        return (n, n)
+    if scls == 'sq:prime':
+        n = [5, 7, 11, 13, 17, 19, 23, 29, 31][int(rng.integers(0, 4 if hi < 20 else 9))]
+        return (n, n)
+    while True:
+        shp = (int(rng.integers(4, hi + 1)), int(rng.integers(4, hi + 1)))
+        if shp[0] != shp[1]:
+            return shp
+
+
+def wl_special(ctx):
+    """Class H: output grid == an FFT grid exactly (Q_for_sampling returns the integer q exactly; output_samples == input shape or
+    q x input shape) AND a shift (every pattern), both routes, both methods, function and Wavefront form."""
+    global CUR
+    from .. import propforms as PF
+    from prysm import propagation as P
+    from ..util import precision
+    k = -1
+    done = 0
+    for rep in range(ctx.pick(2, 600)):
+        hi = ctx.pick(12, 32) if rep else 9
+        for route in ('focus', 'unfocus'):
+            for method in METHODS:
+                for q in (1, 2, 3, 4):
+                    for ocls in ('same-as-input', 'fft-grid'):
+                        for pname, s in PF.SHIFT_PATTERNS:
+                            for field in ('random', 'point'):
+                                k += 1
+                                if not ctx.mine(k):
+                                    continue
+                                done += 1
+                                if done % 64 == 0:
+                                    _clear_caches()
+                                rng = case_rng(ctx, 11, k)
+                                v = int(rng.integers(1 << 30))
+                                scls = ('sq:e', 'sq:o', 'sq:prime', 'nonsq')[(v // 7) % 4]
+                                shp = _special_shape(rng, scls, hi)
+                                ax = int(rng.integers(2))                    # non-square: the axis for which the spacing is the natural one
+                                g = PF.exact_Q_geometry(rng, shp[ax], q)
+                                if g is None:
+                                    ctx.skip('special: no draw for which the library\'s own Q is exactly the integer')
+                                    continue
+                                wvl, efl, idx, odx = g
+                                # the spacing as the LIBRARY reports it (three sources, all the same number on the reference tree)
+                                src = v % 3
+                                with precision(64):
+                                    if src == 1:
+                                        odx = (P.pupil_sample_to_psf_sample if route == 'focus' else P.psf_sample_to_pupil_sample)(idx, shp[ax] * q, wvl, efl)
+                                    elif src == 2 and shp[0] == shp[1]:
+                                        w0 = P.Wavefront(np.ones(shp, dtype=complex), wvl, idx, space='pupil' if route == 'focus' else 'psf')
+                                        odx = float((w0.focus(efl, Q=q) if route == 'focus' else w0.unfocus(efl, Q=q)).dx)
+                                    Qlib = P.Q_for_sampling(shp[ax] * idx, efl, wvl, odx)
+                                if Qlib != q:
+                                    ctx.skip('special: the library\'s own Q is not exactly the integer for this draw')
+                                    continue
+                                ulp = ('', '+1ulp', '', '-1ulp', '', '')[(v // 5) % 6]          # special only up to rounding: one ulp off the FFT spacing
+                                if ulp:
+                                    odx = float(np.nextafter(odx, np.inf if ulp == '+1ulp' else 0.0))
+                                    Qlib = P.Q_for_sampling(shp[ax] * idx, efl, wvl, odx)
+                                samples = shp if ocls == 'same-as-input' else (shp[0] * q, shp[1] * q)
+                                shift = _typed_shift(s, odx)
+                                use_wf = bool((v // 3) % 2)
+                                bits, dbits = precision_class(v)
+                                seed = int(rng.integers(2**31 - 1))
+                                cls = f'special:{route}:{method}:Q=={q}{ulp}:{ocls}:{scls}:shift={pname}:{"tilt/spot" if field == "point" else "random"}'
+                                desc = {'wl': 'special', 'route': route, 'class': cls + (f':p{bits}/d{dbits}' if (bits, dbits) != (64, 64) else ''), 'shape': shp,
+                                        'samples': samples, 'method': method, 'wavelength': wvl, 'efl': efl, 'input_dx': idx, 'output_dx': odx, 'Q_library': float(Qlib),
+                                        'natural_axis': ax, 'shift_samples': s, 'seed': seed, 'api': 'Wavefront' if use_wf else 'function', 'precision': bits,
+                                        'data_bits': dbits, 'spacing_source': ('own expression', 'spacing helper', 'Wavefront.focus/unfocus(Q=q).dx')[src]}
+                                CUR = desc
+                                ctx.case(desc)
+                                ctx.observe('special.fft-grid-with-shift')
+                                sc = _shift_cls(s)
+                                key = fixed_key(route, method, shp, samples, sc != '0')
+                                arg_samples = samples[0] if (samples[0] == samples[1] and (v // 2) % 4 == 1) else samples
+
+                                def call(a):
+                                    if use_wf:
+                                        w = P.Wavefront(a, wvl, idx, space='pupil' if route == 'focus' else 'psf')
+                                        f = w.focus_fixed_sampling if route == 'focus' else w.unfocus_fixed_sampling
+                                        return f(efl, odx, arg_samples, shift=shift, method=method).data
+                                    f = P.focus_fixed_sampling if route == 'focus' else P.unfocus_fixed_sampling
+                                    return f(a, idx, efl, wvl, odx, arg_samples, shift=shift, method=method)
+                                with precision(bits), ctx.guard(_raise_key(method, key, sc), desc, what=_raise_what(method, sc)):
+                                    if field == 'random':
+                                        a = field_array(seed, shp, v, method)
+                                        call(to_bits(a, dbits) if a.dtype.kind in 'fc' else a)          # judged by the contract (M1)
+                                        continue
+                                    gl = geom_label(route, method, shp, samples)
+                                    if route == 'focus':
+                                        # k waves of tilt across D = n dx on each axis: the spot lands on sample k * Q_axis (+ shift); Q_axis = q on the natural axis
+                                        Qax = [wvl * efl / (n_ * idx * odx) for n_ in shp]
+                                        if any(samples[ax_] > 0.9 * shp[ax_] * Qax[ax_] + 1e-9 and samples[ax_] != round(shp[ax_] * Qax[ax_]) for ax_ in (0, 1)) or \
+                                                any(samples[ax_] > shp[ax_] * Qax[ax_] + 1e-9 for ax_ in (0, 1)):
+                                            # (a window of exactly one alias period -- the FFT grid itself -- is fine: every spot appears once)
+                                            a_ = field_array(seed, shp, v, method)
+                                            call(to_bits(a_, dbits) if a_.dtype.kind in 'fc' else a_)
+                                            ctx.skip('special: output window wider than one alias period on the non-natural axis (judged by the contract only)')
+                                            continue
+                                        kk = []
+                                        for axis, sh in ((1, s[0]), (0, s[1])):           # x -> axis 1, y -> axis 0
+                                            room = samples[axis] // 2 - 2 - abs(math.ceil(abs(sh)))
+                                            kmax = int(min(room / Qax[axis], shp[axis] // 2 - 1)) if room > 0 else 0
+                                            kk.append(int(rng.integers(-kmax, kmax + 1)) if kmax > 0 else 0)
+                                        kx, ky = kk
+                                        xs = (np.arange(shp[1]) - shp[1] // 2) * idx
+                                        ys = (np.arange(shp[0]) - shp[0] // 2) * idx
+                                        t = np.exp(2j * np.pi * (kx * xs[None, :] / (shp[1] * idx) + ky * ys[:, None] / (shp[0] * idx)))
+                                        data = np.asarray(call(to_bits(t, dbits)))
+                                        desc.update(waves=(kx, ky))
+                                        if sc == 'frac' or data.shape != tuple(samples) or not np.all(np.isfinite(data)):
+                                            continue                                      # between samples / already reported by the contract
+                                        ex_f, ey_f = kx * Qax[1] + s[0], ky * Qax[0] + s[1]
+                                        if abs(ex_f - round(ex_f)) > 1e-6 or abs(ey_f - round(ey_f)) > 1e-6:
+                                            ctx.skip('special: spot between samples on the non-natural axis (judged by the contract only)')
+                                            continue
+                                        iy, ix = _peak(data)
+                                        ey_i, ex_i = samples[0] // 2 + int(round(ey_f)), samples[1] // 2 + int(round(ex_f))
+                                        if not (0 < ey_i < samples[0] - 1 and 0 < ex_i < samples[1] - 1):
+                                            ctx.skip('special: spot outside the window (judged by the contract only)')
+                                            continue
+                                        ctx.require('shift-translates-image' if sc != '0' else 'tilt->displacement.fixed', (iy, ix) == (ey_i, ex_i), key,
+                                                    _what('focus', method, gl) + ' [output grid exactly an FFT grid: the spot is not at k*lambda*f/D + shift in output samples]',
+                                                    desc, peak_index=(iy, ix), expected_index=(ey_i, ex_i))
+                                    else:
+                                        my, mx = (int(rng.integers(-(shp[ax_] // 2) + 1, shp[ax_] - shp[ax_] // 2 - 1)) for ax_ in (0, 1))
+                                        a = np.zeros(shp, dtype=np.complex64 if dbits == 32 else complex)
+                                        a[shp[0] // 2 + my, shp[1] // 2 + mx] = 1.0
+                                        out = np.asarray(call(a))
+                                        desc.update(spot_samples=(mx, my))
+                                        if sc != '0' or out.shape != tuple(samples) or not np.all(np.isfinite(out)):
+                                            continue                                      # with a shift only moduli are specified (the contract judges them)
+                                        sx_ref = 2 * math.pi * (mx * idx) * odx / (wvl * efl)
+                                        sy_ref = 2 * math.pi * (my * idx) * odx / (wvl * efl)
+                                        if max(abs(sx_ref), abs(sy_ref)) > 0.95 * math.pi or min(samples) < 2:
+                                            ctx.skip('spot->tilt: slope aliased')
+                                            continue
+                                        stol = SLOPE_TOL[bits == 32 or dbits == 32]
+                                        ok = _wrapdiff(_slope(out, 1), sx_ref) <= stol and _wrapdiff(_slope(out, 0), sy_ref) <= stol
+                                        ctx.require('spot->tilt.fixed', ok, key,
+                                                    _what('unfocus', method, gl) + ' [output grid exactly an FFT grid: a displaced focal spot does not return the pupil tilt]',
+                                                    desc, slope_xy=(_slope(out, 1), _slope(out, 0)), expected=(sx_ref, sy_ref))
+    CUR = None
+    _clear_caches()
+
+
+def _bound(a, shp, Qp):
+    return float(np.sum(np.abs(a))) / math.sqrt(shp[0] * Qp[0] * shp[1] * Qp[1])
+
+
+def wl_scale_units(ctx):
+    """Class G: (i) a field of magnitude s = 1e-12 ... 1e12 through both fixed-sampling routes and Wavefront.focus / unfocus -- the
+    contract is scale-free, the homogeneity law is not; (ii) the same propagation in other consistent units -- equal fields, the
+    reported dx / the spacing helpers scaled by the unit of the output plane."""
+    global CUR
+    from .. import propforms as PF
+    from prysm import propagation as P
+    from ..util import precision
+    n = ctx.pick(160, 240000)
+    for k in range(n):
+        if not ctx.mine(k):
+            continue
+        if (k // ctx.nshards) % 64 == 63:
+            _clear_caches()
+        rng = case_rng(ctx, 12, k)
+        v = int(rng.integers(1 << 30))
+        what = ('scale', 'units')[k % 2]
+        route = ('focus', 'unfocus')[(k // 2) % 2]
+        fft_route = (k // 4) % 3 == 2
+        method = METHODS[int(rng.integers(2))]
+        bits, dbits = precision_class(v)
+        single = bits == 32 or dbits == 32
+        wvl, efl, dx = physical(rng)
+        icls = IN_CLASSES[int(rng.integers(len(IN_CLASSES)))] if not fft_route else ('sq:e', 'sq:o')[int(rng.integers(2))]
+        shp = draw_shape(rng, icls, 4, ctx.pick(12, 32))
+        samples = draw_shape(rng, OUT_CLASSES[int(rng.integers(3))], 8, ctx.pick(24, 64))
+        pname, s = PF.SHIFT_PATTERNS[int(rng.integers(len(PF.SHIFT_PATTERNS)))]
+        if route == 'focus':
+            idx, odx = dx, wvl * efl / (max(shp) * dx) * logu(rng, 0.2, 3.0)
+        else:
+            idx, odx = wvl * efl / (max(samples) * dx) * logu(rng, 0.2, 3.0), dx
+            shp, samples = samples, shp
+        Q = float([1, 2, 3, 1.5][int(rng.integers(4))])
+        seed = int(rng.integers(2**31 - 1))
+        a = to_bits(cnormal(np.random.default_rng(seed), shp), dbits)
+        use_wf = bool(v % 2)
+        space = 'pupil' if route == 'focus' else 'psf'
+        fname = f'Wavefront.{route}' if fft_route else f'{route}_fixed_sampling'
+        desc = {'wl': 'scale-units', 'what': what, 'fn': fname, 'shape': shp, 'samples': samples, 'method': method, 'wavelength': wvl, 'efl': efl, 'input_dx': idx,
+                'output_dx': odx, 'shift_samples': s, 'Q': Q, 'seed': seed, 'precision': bits, 'data_bits': dbits, 'api': 'Wavefront' if use_wf else 'function'}
+        sc = _shift_cls(s)
+        key = fixed_key(route, method, shp, samples, sc != '0') if not fft_route else f'C03/Wavefront.{route}/fft/{_qclass(Q)}'
+
+        def fixed(arr, idx_, efl_, wvl_, odx_):
+            shift = _typed_shift(s, odx_)
+            if use_wf:
+                w = P.Wavefront(arr, wvl_, idx_, space=space)
+                f = w.focus_fixed_sampling if route == 'focus' else w.unfocus_fixed_sampling
+                return np.array(f(efl_, odx_, samples, shift=shift, method=method).data, copy=True)
+            f = P.focus_fixed_sampling if route == 'focus' else P.unfocus_fixed_sampling
+            return np.array(f(arr, idx_, efl_, wvl_, odx_, samples, shift=shift, method=method), copy=True)
+
+        def fft(arr, idx_, efl_, wvl_):
+            w = P.Wavefront(arr, wvl_, idx_, space=space)
+            o = w.focus(efl_, Q) if route == 'focus' else w.unfocus(efl_, Q)
+            return np.array(o.data, copy=True), float(o.dx)
+        if what == 'scale':
+            sv = PF.SCALES[int(rng.integers(len(PF.SCALES)))]
+            desc.update(s=sv)
+            desc['class'] = f'scale:{fname}:{method if not fft_route else "fft"}:{PF.scale_class(sv)}:{icls}:shift={pname}' + (f':p{bits}/d{dbits}' if (bits, dbits) != (64, 64) else '')
+            CUR = desc
+            ctx.case(desc)
+            with precision(bits), ctx.guard(_raise_key(method, key, sc) if not fft_route else key, desc, what=f'{fname} of a field of magnitude {sv:g}'):
+                sa = (a * sv).astype(a.dtype)
+                if fft_route:
+                    r1, rs = fft(a, idx, efl, wvl)[0], fft(sa, idx, efl, wvl)[0]
+                else:
+                    r1, rs = fixed(a, idx, efl, wvl, odx), fixed(sa, idx, efl, wvl, odx)
+                ctx.observe('scale.homogeneity')
+                ref = sv * r1
+                scl = float(np.max(np.abs(ref)))
+                err = float(np.max(np.abs(rs - ref))) if rs.shape == ref.shape and np.isfinite(rs).all() else float('inf')
+                if not err <= (1e-3 if single else 1e-11) * scl:
+                    ctx.violation(f'C03/{fname}/scale:{PF.scale_class(sv)}/not-homogeneous',
+                                  f'{fname} is linear, but f(s a) != s f(a) for a field of magnitude s (tiny: s <= 1e-3, huge: s >= 1e3)', desc, err=err, scale=scl)
+            continue
+        uname, al, be, ga, de = PF.UNIT_SYSTEMS[int(rng.integers(len(PF.UNIT_SYSTEMS)))]
+        if route == 'unfocus':
+            al, de = de, al                       # the input plane is the focal plane there
+        desc.update(units=uname)
+        desc['class'] = f'units:{fname}:{method if not fft_route else "fft"}:{uname}:{icls}:shift={pname}' + (f':p{bits}/d{dbits}' if (bits, dbits) != (64, 64) else '')
+        CUR = desc
+        ctx.case(desc)
+        with precision(bits), ctx.guard(_raise_key(method, key, sc) if not fft_route else key, desc, what=f'{fname} in the unit system {uname}'):
+            if fft_route:
+                (r1, dx1), (r2, dx2) = fft(a, idx, efl, wvl), fft(a, idx * al, efl * be, wvl * ga)
+                tol = (1e-3 if single else 1e-12) * float(np.max(np.abs(r1)))
+                okdx = abs(dx2 - dx1 * de) <= (1e-5 if bits == 32 else 1e-13) * abs(dx1 * de)
+                hfun, hinv = (P.pupil_sample_to_psf_sample, P.psf_sample_to_pupil_sample) if route == 'focus' else (P.psf_sample_to_pupil_sample, P.pupil_sample_to_psf_sample)
+                h1, h2 = hfun(idx, shp[0], wvl, efl), hfun(idx * al, shp[0], wvl * ga, efl * be)
+                okdx = okdx and abs(h2 - h1 * de) <= 1e-13 * abs(h1 * de) and abs(hinv(h2, shp[0], wvl * ga, efl * be) - idx * al) <= 1e-13 * idx * al
+                ctx.require('scale.unit-invariance', okdx, f'C03/Wavefront.{route}/scale:units/reported-dx-not-scaled-with-the-units',
+                            f'Wavefront.{route} / the spacing helpers in other consistent units: the reported spacing is not the same length', desc,
+                            reported=(dx1, dx2), expected_ratio=de)
+            else:
+                r1, r2 = fixed(a, idx, efl, wvl, odx), fixed(a, idx * al, efl * be, wvl * ga, odx * de)
+                Qp = tuple(wvl * efl / (n_ * idx * odx) for n_ in shp)
+                r = rtol_for(method, single, shp, Qp, samples, (float(s[0]), float(s[1])))
+                if r is None:
+                    ctx.skip('float32: kernel phase beyond the resolution of the working precision (tolerance would exceed 3e-2)')
+                    continue
+                tol = r * _bound(a, shp, Qp)
+            ctx.observe('scale.unit-invariance')
+            err = float(np.max(np.abs(r2 - r1))) if r2.shape == r1.shape and np.isfinite(r2).all() else float('inf')
+            if not err <= tol:
+                ctx.violation(f'C03/{fname}/scale:units/result-changes-under-a-consistent-change-of-units',
+                              f'{fname}: the same propagation expressed in other consistent units (lambda f / (dx_in dx_out) and shift / dx_out unchanged) gives another field',
+                              desc, err=err, tol=tol)
+    CUR = None
+    _clear_caches()
+
+
+def wl_sizes(ctx):
+    """Class I: thin arrays whose long axis has 65 ... 1024 samples (prime / awkward / power of two) through both fixed-sampling
+    routes onto long output axes -- incl. band-complete grids whose Q is within 1e-3 of an integer -- with and without one-axis
+    shifts (contract M1), and Wavefront.focus / unfocus on square prime sizes."""
+    global CUR
+    from .. import propforms as PF
+    from prysm import propagation as P
+    jobs = []
+    for i, (nn, MM) in enumerate(PF.NEAR_INTEGER_PAIRS[:ctx.pick(5, 8)]):
+        jobs.append(('near-integer-Q', nn, MM, i))
+    for i, nn in enumerate(PF.AWKWARD_SIZES + PF.LARGE_SIZES):
+        jobs.append(('awkward', nn, [nn, nn + 1, 2 * nn, 97][i % 4], i))
+    if not ctx.quick:
+        g = np.random.default_rng([ctx.seed, 1234])
+        for i in range(300):
+            nn = int(g.integers(64, 1100))
+            jobs.append(('random', nn, int(g.integers(64, 1300)), i))
+    k = -1
+    for (kind, nn, MM, i) in jobs:
+        for route in ('focus', 'unfocus'):
+            for method in METHODS:
+                for shifted in (False, True):
+                    k += 1
+                    if not ctx.mine(k):
+                        continue
+                    rng = case_rng(ctx, 13, k)
+                    shp = PF.thin(nn, i + k)
+                    samples = tuple(MM if v_ == nn else v_ for v_ in shp)
+                    along_x = shp[1] == nn
+                    wvl, efl, dx = physical(rng)
+                    if kind == 'near-integer-Q':
+                        odx = PF.lib_spacing(dx, MM, wvl, efl)          # band-complete: Q = M / n on the long axis
+                    else:
+                        odx = wvl * efl / (nn * dx) * logu(rng, 0.3, 2.0)
+                    s = (0, 0) if not shifted else ((2.5, 0) if along_x else (0.0, -3))
+                    seed = int(rng.integers(2**31 - 1))
+                    desc = {'wl': 'sizes', 'route': route, 'shape': shp, 'samples': samples, 'method': method, 'wavelength': wvl, 'efl': efl, 'input_dx': dx, 'output_dx': odx,
+                            'shift_samples': s, 'seed': seed, 'class': f'sizes:{kind}:{route}:{method}:{"x" if along_x else "y"}-axis:{"shifted" if shifted else "unshifted"}'}
+                    CUR = desc
+                    ctx.case(desc)
+                    ctx.observe('size.large-or-prime')
+                    a = cnormal(np.random.default_rng(seed), shp)
+                    sc = _shift_cls(s)
+                    key = fixed_key(route, method, shp, samples, shifted)
+                    with ctx.guard(_raise_key(method, key, sc), desc, what=_raise_what(method, sc)):
+                        f = P.focus_fixed_sampling if route == 'focus' else P.unfocus_fixed_sampling
+                        if k % 2:
+                            f(a, dx, efl, wvl, odx, samples, shift=_typed_shift(s, odx), method=method)
+                        else:
+                            w = P.Wavefront(a, wvl, dx, space='pupil' if route == 'focus' else 'psf')
+                            (w.focus_fixed_sampling if route == 'focus' else w.unfocus_fixed_sampling)(efl, odx, samples, shift=_typed_shift(s, odx), method=method)
+                    _clear_caches()
+    # FFT route on square prime / awkward sizes (reported coordinates judged by the contract)
+    k = -1
+    for N in (65, 67, 74, 101, 127) + ctx.pick((), (129, 131, 257)):
+        for Q in (1, 2, 1.5):
+            for route in ('focus', 'unfocus'):
+                k += 1
+                if not ctx.mine(k):
+                    continue
+                if ctx.quick and N > 74 and Q != 1:
+                    continue
+                rng = case_rng(ctx, 14, k)
+                wvl, efl, dx = physical(rng)
+                seed = int(rng.integers(2**31 - 1))
+                desc = {'wl': 'sizes', 'route': route, 'N': N, 'Q': Q, 'wavelength': wvl, 'efl': efl, 'dx': dx, 'seed': seed, 'class': f'sizes:fft:{route}:{N}:{_qclass(Q)}'}
+                CUR = desc
+                ctx.case(desc)
+                ctx.observe('size.large-or-prime')
+                a = cnormal(np.random.default_rng(seed), (N, N))
+                with ctx.guard(f'C03/Wavefront.{route}/fft/{_qclass(Q)}', desc):
+                    w = P.Wavefront(a, wvl, dx if route == 'focus' else dx * 10, space='pupil' if route == 'focus' else 'psf')
+                    (w.focus if route == 'focus' else w.unfocus)(efl, Q)
     CUR = None
     _clear_caches()
 
